@@ -43,9 +43,12 @@ Convertible(u1, u2) ==
 Subst(ex, w) == [i \in DOMAIN ex |-> IF ex[i].u \in LengthUnits THEN [u |-> w, e |-> ex[i].e] ELSE ex[i]]
 OneKind(ex) == Cardinality(ExUnits(ex)) = Len(ex)
 \* units an object in units u is converted to / asked for in the explored histories
+\* (cm/m: a pure number written in dimensional units that cancel - only to() leaves such units on an object)
+UCmPerM == << [u |-> "c:m", e |-> ROne], [u |-> "m", e |-> RInt(-1)] >>
 Targets(u) ==
-  IF u = UNone THEN {URad}
-  ELSE IF u = X1("%") THEN {UNone}
+  IF u = UNone THEN {URad, UCmPerM}
+  ELSE IF u = X1("%") THEN {UNone, UCmPerM}
+  ELSE IF u = UCmPerM THEN {UNone}
   ELSE IF u = X1("deg") THEN {URad}
   ELSE IF u = URad THEN {X1("deg")}
   ELSE IF u = X1("d:Bm") THEN {X1("d:BW")}
